@@ -222,6 +222,17 @@ func (g *gen) boundaryDeployment() *Op {
 	if r.Bool(20, "bd.second") && len(groups) > 0 && len(groups[0].Resources) > 0 {
 		mutate()
 	}
+	// the group that carries the excess need not be the last (or only) one of the deployment
+	if len(groups) == 1 && len(groups) < cfg.MaxGroupCount && r.Bool(35, "bd.more-groups") {
+		n := 1 + r.Choose(2, "bd.more-groups.n")
+		for i := 0; i < n; i++ {
+			groups = append(groups, dtypes.GroupSpec{Name: fmt.Sprintf("x%d", i), Resources: []dtypes.Resource{unitOK()}})
+		}
+		if r.Bool(50, "bd.more-groups.middle") && len(groups) >= 3 {
+			groups[0], groups[1] = groups[1], groups[0] // the mutated group in the middle
+		}
+		what += fmt.Sprintf("followed by %d valid groups ", n)
+	}
 	msg := dtypes.NewMsgCreateDeployment(id, groups, version, deposit)
 	return &Op{Kind: "BoundaryDeployment", Msg: msg, Required: t, Boundary: what}
 }
